@@ -9,6 +9,7 @@ from props import logix as lx
 def run(ctx, model):
     from props import kernels
     kernels.run_filter(ctx, model, "C05")
+    kernels.run_upload_parsers(ctx, model, "C05")
     rng = ctx.rng
     n = ctx.budget(60, 800)
     for i in range(n):
